@@ -17,8 +17,8 @@ for s in "${seeds[@]}"; do
   out=$(timeout 1800 ./check "$c" 2>&1); rc=$?
   git -C /repo checkout -- .
   if [ $rc -eq 0 ]; then v=MISSED; missed=1
-  elif echo "$out" | grep -q "VIOLATION.*no-failing-input-found"; then v=nfi
-  elif echo "$out" | grep -q "VIOLATION"; then v=input
+  elif echo "$out" | grep "VIOLATION" | grep -qv "no-failing-input-found"; then v=input
+  elif echo "$out" | grep -q "VIOLATION"; then v=nfi
   else v="rc=$rc without VIOLATION line"; missed=1; fi
   echo "$s $c rc=$rc $v $(echo "$out" | grep '^#' | head -1 | cut -c1-160)"
 done
